@@ -12,7 +12,7 @@ from .c10 import walk_cache
 
 LEVEL = "model_checking"
 RULE = ("cache_create from_envelope: every envelope hierarchy of depth<=3 (4 payload sets per node, 0-2 dependencies, names "
-        "repeated across levels, contents distinct per position) x 5x5 (omit, dependency) pattern pairs, compared with a "
+        "repeated across levels, contents distinct per position) x 6x6 (omit, dependency) pattern pairs, compared with a "
         "reference model of the selection (multiset of (path, name, bytes)): each payload is found exactly once, in the "
         "output tree at the same path or in the cache under its name, byte-identical; manifest and wrapper spans at "
         "every level byte-identical; refusals (duplicate URI, dependency pattern on a non-envelope) leave no output. "
@@ -23,8 +23,8 @@ ASSUMPTIONS = ["svmc/refcbor.py; cache files read with C10's walker", "pattern s
 BOUNDS = {"quick": "555 trees (second dependency fixed to a leaf) x 25 pattern pairs; extract histories depth 2",
           "thorough": "same trees x 25 pattern pairs x eb in {1,16}; extract histories depth 3"}
 
-PAYSETS = [[], ["#a"], ["#a", "#b"], ["cache://x"], ["#e", "#a"]]      # "#e" is a zero-length payload
-PATTERNS = [None, "nomatch", ".*", "#a.*", "#dep.*"]
+PAYSETS = [[], ["#a"], ["#a", "#b"], ["cache://x"], ["#e", "#a"], ["#ab", "#a"]]      # "#e" is a zero-length payload
+PATTERNS = [None, "nomatch", ".*", "#a.*", "#dep.*", "#a"]        # "#a" must not select "#ab" (fullmatch, not prefix)
 
 
 def trees(depth):
@@ -115,8 +115,8 @@ def cache_cases(tier):
     out = []
     i = 0
     for ti in range(len(ts)):
-        for o in range(5):
-            for d in range(5):
+        for o in range(len(PATTERNS)):
+            for d in range(len(PATTERNS)):
                 for eb in ((16,) if tier == "quick" else (16, 1)):
                     out.append({"t": ti, "omit": o, "dep": d, "eb": eb, "i": i})
                     i += 1
@@ -234,7 +234,8 @@ def _member_at(envelope, path, name):
 # -- payload_extract histories -----------------------------------------------------------------------
 
 EXTRACT_SEEDS = {"none": [], "one": ["#a"], "empty": ["#e"], "three": ["#a", "#e", "#b", "cache://x"]}
-EXTRACT_OPS = [(n, rep, outf) for n in ("#a", "#e", "#b", "#zzz") for rep in (False, True) for outf in (False, True)]
+EXTRACT_OPS = ([(n, rep, outf) for n in ("#a", "#e", "#b", "#zzz") for rep in (False, True) for outf in (False, True)]
+               + [("#a", "same-file", True), ("#b", "same-file", True)])      # in-place swap: replacement read from the file the payload is written to
 
 
 def extract_init():
@@ -255,9 +256,15 @@ def extract_step(hist, agg, expand):
             inp, oute, outp, repf = (os.path.join(d, f"{step}_{x}") for x in ("in.suit", "out.suit", "payload.bin", "rep.bin"))
             open(inp, "wb").write(cur)
             repl = b"replacement-" + bytes([step, 0, 255])
-            if rep:
+            if rep == "same-file":
+                # both options name the same file (spelled differently): it holds the replacement and receives the old payload
+                os.makedirs(os.path.join(d, f"{step}_dir"), exist_ok=True)
+                repf = os.path.join(d, f"{step}_dir", "swap.bin")
+                outp = os.path.join(d, f"{step}_dir", ".", "swap.bin")
                 open(repf, "wb").write(repl)
-            if outf:
+            elif rep:
+                open(repf, "wb").write(repl)
+            if outf and rep != "same-file":
                 open(outp, "wb").write(b"STALE CONTENT OF AN EARLIER RUN")      # the output path may already exist
             label = f"history {hist[0]} -> {[EXTRACT_OPS[i] for i in hist[1:step + 2]]}"
             present = name in state
